@@ -6,7 +6,9 @@ use crate::{
     },
     imperatively_loaded_fields::get_paths_and_contents_for_imperatively_loaded_field,
     normalization_ast_text::generate_normalization_ast_text,
-    operation_text::{OperationText, generate_operation_text},
+    operation_text::{
+        OperationText, escape_query_text_for_single_quoted_js_string, generate_operation_text,
+    },
     persisted_documents::PersistedDocuments,
     raw_response_type::generate_raw_response_type,
 };
@@ -258,7 +260,11 @@ pub(crate) fn generate_entrypoint_artifacts_with_client_scalar_selectable_traver
 
     let mut path_and_contents = Vec::with_capacity(refetch_paths_with_variables.len() + 3);
     path_and_contents.push(ArtifactPathAndContent {
-        file_content: format!("export default '{query_text}';").into(),
+        file_content: format!(
+            "export default '{}';",
+            escape_query_text_for_single_quoted_js_string(&query_text.0)
+        )
+        .into(),
         artifact_path: ArtifactPath {
             file_name: *QUERY_TEXT_FILE_NAME,
             type_and_field: EntityNameAndSelectableName {
